@@ -31,7 +31,9 @@ System == << <<"g_tt", "", TRUE, TRUE, 0, TRUE, 0>>, <<"g_segc", "", TRUE, TRUE,
 NoiseAll(m) == {<<>>, OtherMetrics(m), OtherTask(m) \o OtherMetrics(m) \o System}
 NoiseFew(m) == {<<>>, OtherTask(m) \o OtherMetrics(m) \o System}
 (* a dependent timing of a composite operation: service_time of the task with another operation type *)
-Foreign(m) == IF m = "svc" THEN {<<>>, << <<"svc", "t1", FALSE, TRUE, 2, FALSE, 70>> >>} ELSE {<<>>}
+(* (sub-requests: same task, other operation type, their own success flags; 9 is larger than every own value) *)
+Foreign(m) == IF m = "svc" THEN {<<>>, << <<"svc", "t1", FALSE, TRUE, 2, FALSE, 70>>, <<"svc", "t1", FALSE, TRUE, 9, TRUE, 71>>, <<"svc", "t1", FALSE, TRUE, 9, FALSE, 72>> >>}
+              ELSE {<<>>}
 
 BagInit(ms, n, k, warm(_), noise(_)) ==
     \E m \in ms : \E s \in Bags(n, IF m = "svc" THEN 2 * k + 1 ELSE k) : \E w \in warm(m), nz \in noise(m), f \in Foreign(m) :
